@@ -101,6 +101,16 @@ Print Assumptions C19_need_zero_means_stored.
    stored at both ends is stored under the same index (the connection id
    carried in the hello on the accepting side = the dial index on the dialling
    side).  (3) below: every stored connection joins the right two parties. *)
+(* "Data sent on the k-th connection arrives there; nothing lost, duplicated": the mesh model
+   ends when Connect returns; what travels on an established link afterwards is the byte
+   stream of one p2p.Conn pair, and that part of the statement is discharged by COMPOSING the
+   theorems here (the k-th connection at one end is the very link that is the k-th at the
+   other end: C19_complete, C19_no_dup_cross) with C11 (C11_roundtrip: over any fragmentation
+   of the transport, the values received on a Conn are the values sent, in order).  The
+   composition is tied to the real sockets by harness c19: after the mesh has formed, some
+   scenarios of every run stream a few hundred thousand tagged, numbered records (Uint32 and
+   Label mix) over every connection in both directions with the receivers starting late, and
+   check order and content end to end (key c19:post-connect-stream:<i><->j#k:...). *)
 Theorem C19_no_dup_cross :
   forall n k, 2 <= n -> 1 <= k -> k <= 256 ->
   forall sched, let st := run_from true n k (init n) sched in
